@@ -52,3 +52,47 @@ Lemma D5_internal_panic :
   ref_can_deadlock (ref_outcomes false FUEL p_D5) = false /\
   existsb (fun o => match o with OPanic => true | _ => false end) (ref_outcomes false FUEL p_D5) = false.
 Proof. vm_compute. repeat split; reflexivity. Qed.
+
+(* D4 (C03): read-modify-write atomicity / coherence. T1: x.store(1); r1 = x.load()
+   T2: r2 = x.fetch_add(2); r3 = x.load().  Outcome r1 = 2, r2 = 0, r3 = 2: the RMW read
+   the initial value, so its write 2 immediately follows 0 in modification order and 1
+   comes after 2; T1 reading 2 after writing 1 violates coherence. RC11 (even the
+   weakest instance) forbids it; L explores it. *)
+Require Import LV.RC11.
+Definition p_D4 : prog :=
+  mkProg cfg0 [DAtomic 0]
+    [[ISpawn 1; ISpawn 2; IJoin 1; IJoin 2];
+     [IStore 0 1 Relaxed; ILoad 0 Relaxed];
+     [IRmw 0 RAdd 2 Relaxed; ILoad 0 Relaxed]].
+Definition o_D4 : outcome :=
+  [[(0, RUnit); (1, RUnit); (2, RUnit); (3, RUnit)];
+   [(0, RUnit); (1, RVal 2)];
+   [(0, RVal 0); (1, RVal 2)]].
+Definition litmus_D4 : list (list instr) := tl (p_bodies p_D4).
+Lemma D4_forbidden_but_explored :
+  rc11_allows false true (fun _ => 0%N) litmus_D4 (S (rc11_enough_fuel litmus_D4))
+              [[0%N; 2%N]; [0%N; 2%N]] = false /\
+  rc11_allows true false (fun _ => 0%N) litmus_D4 (S (rc11_enough_fuel litmus_D4))
+              [[0%N; 2%N]; [0%N; 2%N]] = false /\
+  mem_outcome o_D4 (explored p_D4 (recs_of p_D4)) = true.
+Proof. vm_compute. repeat split; reflexivity. Qed.
+
+(* D2 (C02), repaired: the outcome that the fence_acq over-synchronisation used to hide
+   is allowed by RC11 and is now explored by L. *)
+Definition p_D2 : prog :=
+  mkProg cfg0 [DAtomic 0; DAtomic 0; DAtomic 0]
+    [[ISpawn 1; ISpawn 2; ISpawn 3; IJoin 1; IJoin 2; IJoin 3];
+     [IStore 0 1 Relaxed; IStore 1 1 Release];
+     [ILoad 1 Relaxed; IStore 2 1 Release];
+     [ILoad 2 Acquire; IFence Acquire; ILoad 0 Relaxed]].
+Definition o_D2 : outcome :=
+  [[(0, RUnit); (1, RUnit); (2, RUnit); (3, RUnit); (4, RUnit); (5, RUnit)];
+   [(0, RUnit); (1, RUnit)];
+   [(0, RVal 1); (1, RUnit)];
+   [(0, RVal 1); (1, RUnit); (2, RVal 0)]].
+Definition litmus_D2 : list (list instr) := tl (p_bodies p_D2).
+Lemma D2_allowed_and_explored :
+  rc11_allows true false (fun _ => 0%N) litmus_D2 (S (rc11_enough_fuel litmus_D2))
+              [[0%N; 0%N]; [1%N; 0%N]; [1%N; 0%N; 0%N]] = true /\
+  mem_outcome o_D2 (explored p_D2 (recs_of p_D2)) = true.
+Proof. vm_compute. repeat split; reflexivity. Qed.
